@@ -901,6 +901,7 @@ func main() {
 	lsmOut := flag.String("lsm", "", "output Lean file: translated searchLowerBound")
 	tableOut := flag.String("table", "", "output Lean file: translated binary searches")
 	filterOut := flag.String("filter", "", "output Lean file: translated bloom filter")
+	walOut := flag.String("wal", "", "output Lean file: translated WAL.Write")
 	flag.Parse()
 	if *locktable != "" {
 		genLockTable(*repo, *locktable)
@@ -931,6 +932,9 @@ func main() {
 	}
 	if *filterOut != "" {
 		genFilter(*repo, *filterOut)
+	}
+	if *walOut != "" {
+		genWal(*repo, *walOut)
 	}
 	if *skeleton != "" {
 		genSkeleton(*repo, *skeleton)
